@@ -656,24 +656,31 @@ fn shrink_case<K: Check>(
     let started = Instant::now();
     let mut steps = 0u64;
     let mut tries = 0u64;
+    // position in the candidate list carries over after an accepted step, so that one kind of
+    // simplification cannot starve the others
+    let mut pos = 0usize;
     'outer: loop {
-        if started.elapsed() > Duration::from_secs(60) || tries > 20_000 {
+        let cands = check.shrink(&case);
+        if cands.is_empty() {
             break;
         }
-        for cand in check.shrink(&case) {
+        let n = cands.len();
+        for k in 0..n {
+            if started.elapsed() > Duration::from_secs(90) || tries > 40_000 {
+                break 'outer;
+            }
+            let idx = (pos + k) % n;
             tries += 1;
-            let ev = check.eval(&cand);
+            let ev = check.eval(&cands[idx]);
             if let Some(nv) = ev.violation {
                 if nv.property == v.property && nv.clause == v.clause && known.matching(&nv).is_none()
                 {
-                    case = cand;
+                    case = cands[idx].clone();
                     v = nv;
                     steps += 1;
+                    pos = idx;
                     continue 'outer;
                 }
-            }
-            if started.elapsed() > Duration::from_secs(60) {
-                break 'outer;
             }
         }
         break;
